@@ -17,6 +17,8 @@ import EasyMl.Lemmas.FallibleZip
 import EasyMl.Lemmas.FallibleExpansion
 import EasyMl.Lemmas.FallibleRange
 import EasyMl.Lemmas.FallibleNamed
+import EasyMl.Lemmas.PartViews
+import EasyMl.Lemmas.FixConservative
 
 namespace EasyMl.C16
 open EasyMl EasyMl.Spec EasyMl.Fallible EasyMl.MatrixView
@@ -307,6 +309,28 @@ theorem mreverse_get_total (src : MView) (hsrc : src.WF) (rows columns : Bool) :
 /-- `MatrixPart` with rectangular row slices. -/
 theorem mpart_get_total (p : MatrixPart) (h : p.Rect) : (MView.ofPart p).Total :=
   mpart_total p h
+
+/-- … and **every part `Matrix::partition` hands out is one**: for every matrix and every pair of
+    boundary lists the call accepts, each part has rectangular row slices, so its checked getters
+    are total (`Some` ⇔ inside its size, never a panic) and it is a legitimate source of further
+    views (`MBuilt`). -/
+theorem partition_parts_get_total (m : MatrixMeta) (hm : m.Inv) (rp cp : List Nat)
+    (parts : List MatrixPart) (h : partition m rp cp = .ok parts) :
+    ∀ p ∈ parts, p.Rect ∧ (MView.ofPart p).WF ∧ MBuilt (ν := ν) (MView.ofPart p) := by
+  intro p hp
+  obtain ⟨hrect, hr, hc⟩ := partition_parts_rect m hm rp cp parts h p hp
+  obtain ⟨hd, h1, h2, hb⟩ := hm
+  have hR : m.rows ≤ usizeMax := by
+    calc m.rows = m.rows * 1 := by simp
+      _ ≤ m.rows * m.columns := Nat.mul_le_mul_left _ h2
+      _ ≤ usizeMax := by rw [← hd]; exact hb
+  have hC : m.columns ≤ usizeMax := by
+    calc m.columns = 1 * m.columns := by simp
+      _ ≤ m.rows * m.columns := Nat.mul_le_mul_right _ h1
+      _ ≤ usizeMax := by rw [← hd]; exact hb
+  have hpr : p.rows ≤ usizeMax := Nat.le_trans hr hR
+  have hpc : p.columns ≤ usizeMax := Nat.le_trans hc hC
+  exact ⟨hrect, ⟨hpr, hpc, mpart_total p hrect⟩, .part hrect hpr hpc⟩
 
 /-- `MatrixRefTensor`. -/
 theorem matrixRefTensor_get_total (t : TView ν) (ht : t.WF) (h2 : t.shape.length = 2) :
@@ -693,5 +717,66 @@ example :
     ["b", "b"].isPerm ([("a", 2), ("b", 3)].map (·.1)) = false := by
   refine ⟨by decide, by decide, by decide, by decide, by decide, by decide, by decide, by decide,
     by decide, by decide, by decide⟩
+/-! ## 10. Conversions between `IndexRange` and `Range<usize>` (infallible conversions, outside
+   C16's list of Option/Result APIs; modelled as written) -/
+
+/-- As written, `Range<usize>::from(IndexRange)` adds `start + length` unchecked: in the dev
+    profile it panics for a range whose end is not representable. -/
+theorem pre_toStdRange_panics : IndexRange.toStdRangePre ⟨1, usizeMax⟩ = .panic .overflow := by decide
+
+/-- **The conversions, exactly.**  `Range<usize>::from(IndexRange)` returns `start .. start+length`
+    exactly when that end is representable and panics (overflow) otherwise;
+    `IndexRange::from(a..b)` is total (`length = b − a`, saturating); converting an `IndexRange`
+    with a representable end to a `Range` and back is the identity, and so is converting a
+    `Range` with `a ≤ b` to an `IndexRange` and back. -/
+theorem std_range_conversions (r : IndexRange) (a b : Nat) :
+    (r.start + r.length ≤ usizeMax →
+      IndexRange.toStdRangePre r = .ok (r.start, r.start + r.length) ∧
+      IndexRange.ofStdRange r.start (r.start + r.length) = r) ∧
+    (usizeMax < r.start + r.length → IndexRange.toStdRangePre r = .panic .overflow) ∧
+    (IndexRange.ofStdRange a b).start = a ∧ (IndexRange.ofStdRange a b).length = b - a ∧
+    (a ≤ b → b ≤ usizeMax → IndexRange.toStdRangePre (IndexRange.ofStdRange a b) = .ok (a, b)) := by
+  refine ⟨?_, ?_, rfl, rfl, ?_⟩
+  · intro h
+    refine ⟨by simp only [IndexRange.toStdRangePre, cadd_ok h], ?_⟩
+    simp only [IndexRange.ofStdRange]
+    cases r; simp
+  · intro h
+    simp only [IndexRange.toStdRangePre, cadd]
+    rw [if_neg (by omega)]
+  · intro hab hb
+    have h : a + (b - a) ≤ usizeMax := by omega
+    simp only [IndexRange.toStdRangePre, IndexRange.ofStdRange, cadd_ok h, Nat.add_sub_cancel' hab]
+/-! ## 11. The repairs are conservative -/
+
+/-- **The repairs D-04 … D-08 replaced overflow panics and nothing else.**  At each of the six
+    places where the code after the fixes differs from the pinned code — `IndexRange::clip`,
+    the `start + length > end` test of `range_exceeds_bounds`, the mask and the reverse index
+    mapping of the checked getters, `dimensions::elements`, `rows * columns` of
+    `RecordMatrix::from_iter` — the pinned code, for every input, either panicked with an
+    arithmetic overflow or returned exactly what the repaired code returns; hence so do
+    `Tensor::try_from`, the clipping of a list of ranges and the strict bounds test. -/
+theorem fixes_conservative (r : IndexRange) (m e i l : Nat) (ls : List Nat) (a b : Nat)
+    (shape : Shape ν) (n : Nat) (ranges : List IndexRange) (oranges : List (Option IndexRange)) :
+    (Arith.pre.clip r m = .panic .overflow ∨ Arith.pre.clip r m = Arith.fixed.clip r m) ∧
+    (Arith.pre.exceeds r e = .panic .overflow ∨ Arith.pre.exceeds r e = Arith.fixed.exceeds r e) ∧
+    (Arith.pre.maskChecked r i = .panic .overflow ∨
+      Arith.pre.maskChecked r i = Arith.fixed.maskChecked r i) ∧
+    (Arith.pre.reverseChecked l i = .panic .overflow ∨
+      Arith.pre.reverseChecked l i = Arith.fixed.reverseChecked l i) ∧
+    (Arith.pre.elementsChecked ls = .panic .overflow ∨
+      Arith.pre.elementsChecked ls = Arith.fixed.elementsChecked ls) ∧
+    (Arith.pre.mulChecked a b = .panic .overflow ∨
+      Arith.pre.mulChecked a b = Arith.fixed.mulChecked a b) ∧
+    (tensorTryFrom Arith.pre shape n = .panic .overflow ∨
+      tensorTryFrom Arith.pre shape n = tensorTryFrom Arith.fixed shape n) ∧
+    (clipRangeShape Arith.pre shape ranges = .panic .overflow ∨
+      clipRangeShape Arith.pre shape ranges = clipRangeShape Arith.fixed shape ranges) ∧
+    (rangeExceedsBounds Arith.pre shape oranges = .panic .overflow ∨
+      rangeExceedsBounds Arith.pre shape oranges = rangeExceedsBounds Arith.fixed shape oranges) := by
+  obtain ⟨h1, h2, h3, h4, h5, h6⟩ := fixes_only_replace_overflow_panics r m e i l ls a b
+  exact ⟨h1, h2, h3, h4, h5, h6, tensorTryFrom_fix_conservative shape n,
+    clipRangeShape_fix_conservative shape ranges, rangeExceedsBounds_fix_conservative shape oranges⟩
+
 
 end EasyMl.C16
